@@ -169,6 +169,7 @@ func checkC08(c *Ctx) {
 		ncore = 2000
 	}
 	checkCore(c, ncore, 8)
+	checkC08ScopeDiscipline(c)
 	if c.Thorough() {
 		checkLongHistories(c, []int{1000, 400000})
 	} else {
@@ -253,4 +254,99 @@ func splitBlocks(exp []expLine, v callVec) (b1, b2, tail []string, ok bool) {
 		tail = append(tail, e.Text)
 	}
 	return b1, b2, tail, true
+}
+
+// Free names in callees.  Which frame a name that is neither a parameter nor a local of the running
+// function resolves to (the caller's, or only the globals) is not fixed by the statement -- but it is ONE
+// discipline for the whole run: the same call in the same situation means the same whatever calls
+// completed before it ("the number of calls ... executed so far never changes later behaviour").  Every
+// program below has two acceptable outputs, one per discipline; anything else mixes them.
+func checkC08ScopeDiscipline(c *Ctx) {
+	pool := c.Pool()
+	type variant struct{ name, callee, wrap, order string }
+	callees := map[string]string{
+		"direct":   "function show() {\n  print \"see\", name\n}\n",
+		"indirect": "function show() {\n  inner()\n}\nfunction inner() {\n  print \"see\", name\n}\n",
+		"matcharm": "function show() {\n  t = match (1) { _ => name }\n  print \"see\", t\n}\n",
+		"expr":     "function show() {\n  print \"see\", \"\" + name\n}\n",
+		"twice":    "function show() {\n  print \"see\", name\n  print \"see\", name\n}\n",
+	}
+	// %s: the value the caller holds under the name
+	wraps := map[string]string{
+		"param":    "function wrap(name) {\n  show()\n}\n",
+		"local":    "function wrap(v) {\n  name = v\n  show()\n}\n", // assigns the GLOBAL name if it exists: see the order below
+		"matchvar": "function wrap(v) {\n  match (v) { name => {\n    show()\n  } }\n}\n",
+		"loopvar":  "function wrap(v) {\n  for (name in [v]) {\n    show()\n  }\n}\n",
+	}
+	var jobs []Job
+	var accept [][]string
+	var meta []string
+	for cn, callee := range callees {
+		for wn, wrap := range wraps {
+			if wn == "local" || wn == "loopvar" {
+				continue // an assignment / loop variable finds the existing global: no second frame is involved
+			}
+			for _, order := range []string{"top-first", "wrapped-first", "alternating"} {
+				var body, dyn, lex strings.Builder
+				per := func(k int) { // what one element contributes
+					lines := 1
+					if cn == "twice" {
+						lines = 2
+					}
+					emit := func(sb *strings.Builder, v string) {
+						for i := 0; i < lines; i++ {
+							sb.WriteString("see " + v + "\n")
+						}
+					}
+					switch order {
+					case "top-first":
+						emit(&dyn, "G")
+						emit(&lex, "G")
+						emit(&dyn, fmt.Sprintf("P%d", k))
+						emit(&lex, "G")
+					case "wrapped-first":
+						emit(&dyn, fmt.Sprintf("P%d", k))
+						emit(&lex, "G")
+						emit(&dyn, "G")
+						emit(&lex, "G")
+					default:
+						emit(&dyn, fmt.Sprintf("P%d", k))
+						emit(&lex, "G")
+						emit(&dyn, "G")
+						emit(&lex, "G")
+						emit(&dyn, fmt.Sprintf("P%d", k))
+						emit(&lex, "G")
+					}
+				}
+				switch order {
+				case "top-first":
+					body.WriteString("  show()\n  wrap(\"P\" + $index)\n")
+				case "wrapped-first":
+					body.WriteString("  wrap(\"P\" + $index)\n  show()\n")
+				default:
+					body.WriteString("  wrap(\"P\" + $index)\n  show()\n  wrap(\"P\" + $index)\n")
+				}
+				for k := 0; k < 4; k++ {
+					per(k)
+				}
+				prog := callee + wrap + "BEGIN {\n  name = \"G\"\n}\n{\n" + body.String() + "}\n"
+				jobs = append(jobs, Job{Kind: "run", Prog: []byte(prog), Files: []FileIn{{Name: "in.json", Data: []byte("[0, 0, 0, 0]")}}, Budget: 100000})
+				accept = append(accept, []string{dyn.String(), lex.String()})
+				meta = append(meta, cn+" / "+wn+" / "+order)
+			}
+		}
+	}
+	pool.Map(jobs, func(i int, r Result) {
+		if r.Class == "budget" || r.Class == "timeout" {
+			c.Count("inconclusive", 1)
+			return
+		}
+		if r.Class != "ok" || (string(r.Stdout) != accept[i][0] && string(r.Stdout) != accept[i][1]) {
+			c.Violation("scope-discipline", map[string]any{"case": meta[i], "program": string(jobs[i].Prog), "got_class": r.Class, "got_err": r.ErrMsg, "got_stdout": string(r.Stdout),
+				"acceptable_if_callees_see_the_callers_names": accept[i][0], "acceptable_if_they_see_only_globals": accept[i][1],
+				"why": "what a free name in a callee means must not depend on which calls completed earlier in the run"})
+			return
+		}
+		c.Case("scope:"+meta[i], true)
+	})
 }
